@@ -30,6 +30,12 @@ Ex_Has0 == (2 :> {1})
 Cr_RSess == (1 :> 1) @@ (2 :> 2)
 Cr_Has0 == (2 :> {1})
 
+\* "race": one call for key 1 (large block) on a temporary session; the neighbour holds the block and the block is
+\* also announced locally around the time of the call
+\* (Peer Sh_Peer, Key Sh_Key, Req Lo_Req, RSess Lo_RSess, RKeys Tw_RKeys, Has0 Cr_Has0, Adds La_Adds)
+\* switches for the control cfgs (sub-steps in the wrong order)
+Yes == TRUE
+
 \* "late": a call on a long-lived session, the key is announced locally around the time of the call
 La_Adds == {<<0, 1>>}
 =============================================================================
